@@ -122,4 +122,33 @@ theorem slot32_unique (q mrc : Nat) (rs cs : List Nat) (hq1 : 1 < q) (hq : q < W
   unfold Nat.ModEq at this
   rwa [Nat.mod_eq_of_lt hs.1, Nat.mod_eq_of_lt hy] at this
 
+/-- the exact sum is bounded by `#terms · R · C` -/
+theorem sum32_le (R C : Nat) : ∀ (rs cs : List Nat), (∀ r ∈ rs, r ≤ R) → (∀ c ∈ cs, c ≤ C) →
+    sum32 rs cs ≤ rs.length * (R * C)
+  | [], _, _, _ => by simp [sum32]
+  | _ :: _, [], _, _ => by simp [sum32]
+  | r :: rs, c :: cs, hr, hc => by
+      have ih := sum32_le R C rs cs (fun x hx => hr x (List.mem_cons_of_mem _ hx))
+        (fun x hx => hc x (List.mem_cons_of_mem _ hx))
+      have h1 : r * c ≤ R * C := Nat.mul_le_mul (hr r List.mem_cons_self) (hc c List.mem_cons_self)
+      simp only [sum32, List.length_cons]
+      calc r * c + sum32 rs cs ≤ R * C + rs.length * (R * C) := Nat.add_le_add h1 ih
+        _ = (rs.length + 1) * (R * C) := by rw [Nat.add_mul, Nat.one_mul, Nat.add_comm]
+
+/-- the guard `acc32BitFits(q, d)` of the 32-bit path makes its accumulation exact: with at most `2d` terms,
+    stored values `≤ q − 1` and transformed digits `≤ 6q − 2`, the exact sum is below `2^64` -/
+theorem acc32Fits_no_wrap (q d : Nat) (hfit : acc32Fits q d = true) (rs cs : List Nat)
+    (hlen : rs.length ≤ 2 * d) (hr : ∀ r ∈ rs, r ≤ q - 1) (hc : ∀ c ∈ cs, c ≤ 6 * q - 2) :
+    sum32 rs cs < W := by
+  simp only [acc32Fits, Bool.and_eq_true, beq_iff_eq, decide_eq_true_eq] at hfit
+  obtain ⟨⟨_, _⟩, h2d⟩ := hfit
+  have hle := sum32_le (q - 1) (6 * q - 2) rs cs hr hc
+  have h1 : rs.length * ((q - 1) * (6 * q - 2)) ≤ 2 * d * ((q - 1) * (6 * q - 2)) :=
+    Nat.mul_le_mul_right _ hlen
+  have h2 : 2 * d * ((q - 1) * (6 * q - 2)) ≤ (W - 1) / ((q - 1) * (6 * q - 2)) * ((q - 1) * (6 * q - 2)) :=
+    Nat.mul_le_mul_right _ h2d
+  have h3 : (W - 1) / ((q - 1) * (6 * q - 2)) * ((q - 1) * (6 * q - 2)) ≤ W - 1 := Nat.div_mul_le_self _ _
+  have hW : 0 < W := by unfold W; omega
+  omega
+
 end Lattigo.RGSW
